@@ -24,6 +24,11 @@
 (*                                CP, dispatcher, CUs): registers of each  *)
 (*                                wavefront when its first instruction runs*)
 (*  Panic   msg                   the real code panicked: never accepted   *)
+(*  Runaway msg / Unterminated    an enumeration of the real code that     *)
+(*                                would not end (more filter candidates    *)
+(*                                than the grid has work-groups / no nil   *)
+(*                                after NumWG()+2 work-groups): decided by *)
+(*                                counting, never accepted                 *)
 (*                                                                         *)
 (* The order in which a builder enumerates work-groups and the way it      *)
 (* packs work-items into wavefronts are NOT fixed here: any enumeration    *)
@@ -248,7 +253,7 @@ TE2EEnd ==
   /\ e2e' = NoE2E
   /\ UNCHANGED <<tgeo, tfilt, tnum, consumed, seen, split>>
 
-\* a Panic line has no action: the trace is rejected there
+\* Panic, Runaway and Unterminated lines have no action: the trace is rejected there
 
 TNext == TReset \/ TSplit \/ TKernel \/ TBuilder \/ TSkip \/ TWG \/ TNil \/ TGroupEnd \/ TRegs
          \/ TE2EBegin \/ TWfRun \/ TE2EEnd
